@@ -364,6 +364,63 @@ def split_consistency(ctx, g, cat, coarse, use_filled, whole, case):
                   lambda: {"whole": whole, "two_parts": got, "cut_at": cut})
 
 
+def run_wide_targets(ctx):
+    """target grids with very many columns (global rasters: 65 521, 65 536, 65 537 ...
+    columns) or more than ten million cells, met by a small delineated catchment whose
+    cells come in upstream-walk order (grid cells are met, left, met again)"""
+    g = mods()
+    rng = np.random.default_rng(ctx.seed + 41)
+    nr = nc = 6
+    codes = np.full((nr, nc), 4, dtype=np.int64)
+    codes[nr - 1, :] = 16
+    codes[nr - 1, 0] = 0
+    for (tnc, tnr, csz, where) in ((65521, 4, 2.0, "left"), (65536, 4, 2.0, "left"),
+                                   (65537, 3, 2.0, "left"), (32749, 5, 3.0, "left"),
+                                   (131071, 3, 2.0, "left"), (100003, 4, 2.0, "left"),
+                                   (4200, 4100, 2.0, "topleft"), (5000, 2100, 2.0, "topleft")):
+        fx, fy = 0.0, 0.0
+        if where == "topleft":
+            fy = (tnr * csz) - nr * 1.0          # catchment under the top-left corner
+        fd = g.Grid("fd", nc, nr, dtype=np.int64, xllcorner=fx, yllcorner=fy)
+        fd.data = codes
+        cat = g.Catchment("c", fd)
+        cat.delineate_area((nr - 1) * nc)
+        cells = [int(c) for c in cat.idxcells_area]
+        tg = g.Grid("target", tnc, tnr, cellsize=csz, xllcorner=0.0, yllcorner=0.0,
+                    dtype=np.uint8)
+        ctx.evaluated()
+        ctx.tag("intersect:very-wide-or-very-large-target")
+        ctx.api("intersect")
+        case = {"kind": "wide", "ncols": tnc, "nrows": tnr, "csz": csz, "where": where}
+        try:
+            with warnings.catch_warnings():
+                warnings.simplefilter("ignore")
+                ag, ic, w = cat.intersect(tg)
+        except Exception as e:
+            ctx.check("intersect.wide", False, "intersect|raises|wide-target", case,
+                      {"exc": repr(e)[:200]})
+            continue
+        gf = Geom(nr, nc, fx, fy, 1.0)
+        gc = Geom(tnr, tnc, 0.0, 0.0, csz)
+        exp = Counter()
+        for c in cells:
+            x, y = gf.centre(c)
+            cc, _ = gc.locate(x, y)
+            if cc >= 0:
+                exp[cc] += 1
+        ratio = (1.0 / csz) ** 2
+        got = {int(c): float(v) for c, v in zip(ic, w)}
+        ok = len(ic) == len(set(int(c) for c in ic)) and \
+            {k: round(v / ratio) for k, v in got.items()} == dict(exp) and \
+            abs(float(np.sum(np.asarray(ag.data, dtype=float))) - sum(exp.values()) * ratio) \
+            <= 1e-9
+        ctx.check("intersect.wide", ok, "intersect|counts|wide-target", case,
+                  lambda: {"got": dict(list(got.items())[:8]),
+                           "expected": {k: v * ratio for k, v in list(exp.items())[:8]},
+                           "n_listed": len(ic), "n_expected": len(exp)})
+        ctx.nontrivial("wide", tnc, tnr)
+
+
 def run_voronoi_case(ctx, case, cat=None):
     g = mods()
     fine = case["fine"]
@@ -442,6 +499,8 @@ def run_voronoi_case(ctx, case, cat=None):
 
 
 def run(ctx):
+    if ctx.shard == 2 % ctx.nshards:
+        run_wide_targets(ctx)
     rng = ctx.rng(1)
     nrep = 60 if ctx.tier == "quick" else 5000
     for it0 in range(nrep):
@@ -600,6 +659,8 @@ def run(ctx):
 
 
 def replay(ctx, case):
+    if case["kind"] == "wide":
+        return run_wide_targets(ctx)
     if case["kind"] == "intersect":
         run_intersect_case(ctx, case)
     else:
